@@ -67,8 +67,31 @@ func (p *Prog) MutatingSinks(v ssa.Value, depth int) []MutSink {
 				visit(x, depth)
 			case *ssa.Phi:
 				visit(x, depth)
+			case *ssa.Extract:
+				if x.Tuple == v {
+					visit(x, depth)
+				}
 			case *ssa.MakeInterface:
-				// boxed: conservatively stop (interfaces to loggers etc.)
+				// boxed: only the in-place sorters of the standard library are followed
+				// (interfaces to loggers etc. stop here)
+				var follow func(iv ssa.Value)
+				follow = func(iv ssa.Value) {
+					for _, rr := range *iv.Referrers() {
+						cl, ok := rr.(ssa.CallInstruction)
+						if !ok {
+							continue
+						}
+						switch CallName(cl) {
+						case "sort.Sort", "sort.Stable", "sort.Slice", "sort.SliceStable":
+							out = append(out, MutSink{Instr: cl, How: "sorted in place by " + CallName(cl)})
+						case "sort.Reverse":
+							if rv := cl.Value(); rv != nil {
+								follow(rv)
+							}
+						}
+					}
+				}
+				follow(x)
 			case *ssa.Convert:
 				// string(b) copies; []byte(string) not applicable
 			case *ssa.IndexAddr:
